@@ -161,6 +161,12 @@ def execute(scn):
         judge(v, env, tag, viol, cases)
 
     for n in range(1, n_att + 1):
+        def mut_detach(v, n=n):
+            a = v["calls"][0]["attempts"]
+            while len(a) < n:
+                a.append(copy.deepcopy(a[-1]))
+            a[n - 1] = dict(a[n - 1], detach_breaker=True)
+        variant(mut_detach, f"normal:breaker-attribute-cleared@attempt={n}")
         for kind, x in OP_KINDS:
             if scn["mode"] == "sync" and x == "CancelledError" and False:
                 continue
